@@ -13,6 +13,7 @@ type ProgCase struct {
 	Cell_ string `json:"cell"`
 	Prop  string `json:"prop"`
 	SysK  string `json:"sysk,omitempty"` // systematic programs: the kind of the statement under test
+	Ctx   string `json:"ctx,omitempty"`  // C04: branch class | direction | distance class
 }
 
 func (c *ProgCase) Kind() string { return "prog" }
@@ -89,6 +90,13 @@ func (c *ProgCase) Judge(rs []Res, env *Env) Outcome {
 			if c.SysK != "" {
 				culprit = c.SysK
 			}
+			if prop == "C04" {
+				o.Status = Violated
+				o.Viols = append(o.Viols, Violation{Sig: fmt.Sprintf("C04|size-drift|m%d|%s|drift=%+d", w.ModeAt[ob.Stmt], c.Ctx, int64(uint64(want)&mask)-int64(uint64(ob.Value)&mask)),
+					Detail: fmt.Sprintf("the branch is sized differently by address assignment and by code generation: statement %d `%s` embeds %s = %#x, but it really is at %#x; output %s; program:\n%s",
+						ob.Stmt, p.Stmts[ob.Stmt].Line(), what, ob.Value, uint64(want)&mask, hexOut, src)})
+				return o
+			}
 			if prop == "C03" {
 				o.Status = Violated
 				o.Viols = append(o.Viols, Violation{Sig: fmt.Sprintf("C03|%s|m%d|%s|drift=%+d", kind, w.ModeAt[ob.Stmt], culprit, int64(uint64(want)&mask)-int64(uint64(ob.Value)&mask)),
@@ -116,7 +124,11 @@ func (c *ProgCase) Judge(rs []Res, env *Env) Outcome {
 		mask := widthMask(br.OpSize)
 		if uint64(br.Target)&mask != uint64(want)&mask {
 			o.Status = Violated
-			o.Viols = append(o.Viols, Violation{Sig: fmt.Sprintf("%s|branch-target|m%d|%s", prop, w.ModeAt[br.Stmt], p.Stmts[br.Stmt].Mn),
+			ctx := p.Stmts[br.Stmt].Mn
+			if c.Ctx != "" {
+				ctx = c.Ctx
+			}
+			o.Viols = append(o.Viols, Violation{Sig: fmt.Sprintf("%s|branch-target|m%d|%s|off=%+d", prop, w.ModeAt[br.Stmt], ctx, int64(uint64(br.Target)&mask)-int64(uint64(want)&mask)),
 				Detail: fmt.Sprintf("statement %d `%s` is encoded as %s and lands on %#x, its target is at %#x; output %s; program:\n%s",
 					br.Stmt, p.Stmts[br.Stmt].Line(), br.In, br.Target, uint64(want)&mask, hexOut, src)})
 			return o
@@ -148,6 +160,12 @@ func (c *ProgCase) Judge(rs []Res, env *Env) Outcome {
 			}
 			break
 		}
+	}
+	if prop == "C04" && w.FailAt >= 0 && w.FailAt < len(p.Stmts) && p.Stmts[w.FailAt].K == "jmp" && w.FailKind == "encoding" {
+		o.Status = Violated
+		o.Viols = []Violation{{Sig: fmt.Sprintf("C04|wrong-branch|m%d|%s", w.ModeAt[w.FailAt], c.Ctx),
+			Detail: fmt.Sprintf("%s; output %s; program:\n%s", w.FailWhy, hexOut, src)}}
+		return o
 	}
 	if w.FailAt >= 0 {
 		// the walk could not be completed: is it the location counter?
